@@ -1,6 +1,7 @@
 CONSTANTS
   MaxUI = 4
   Kinds = {"finite"}
+  ShowBumpsVersion = FALSE
   TemplateHasQ = FALSE
 SPECIFICATION Spec
 INVARIANTS TypeOK OneAlive ConvergenceStaleAfterShow
